@@ -78,6 +78,7 @@ type Cfg struct {
 	SchedSeed      uint64          `json:"sched_seed"`
 	PCT            int             `json:"pct"`       // >0: priority scheduling with pct-1 priority change points
 	PCTSteps       int             `json:"pct_steps"`
+	ChildFirstP    float64         `json:"child_first_p,omitempty"` // newly started goroutines run first with this probability
 	CrashPoints    int             `json:"crash_points"` // C07: 0 = default subset, -1 = every effect
 	WalletMinVal   uint64          `json:"wallet_min_val"` // C17
 	WalletUseMap   uint32          `json:"wallet_use_map_cnt"`
@@ -246,6 +247,9 @@ func (H) Gen(prop string, seed uint64, tier string) *hx.Case {
 	}
 	if prop == "C20" || ((prop == "C06" || prop == "C11" || prop == "C17") && r.Chance(0.3)) || (prop == "C07" && r.Chance(0.1)) {
 		cfg.RealAlloc = true
+	}
+	if r.Chance(0.3) {
+		cfg.ChildFirstP = []float64{0.1, 0.3, 0.6, 1}[r.Intn(4)]
 	}
 	if prop == "C17" {
 		cfg.WalletMinVal = []uint64{0, 1000, 500000000, 1500000000, 2500000000}[r.Intn(5)]
@@ -718,6 +722,7 @@ type run struct {
 	lastSaveHeight uint32
 	failedReorg bool
 	lenientTip  bool
+	inNode      int
 	hookLog     []hookEvent
 	everPaid    map[string]bool
 	delivAt     map[[32]byte]int // effect-log length when the block was first handed to the node
@@ -867,7 +872,9 @@ func (r *run) deliver(bi int, when string) {
 			r.delivOrder = append(r.delivOrder, bi)
 		}
 	}
+	r.inNode++
 	err, stage, maybeLater := r.n.Deliver(blk.Bytes())
+	r.inNode-- // (stays raised when the node panics: deferred oracles of outer frames then stand back)
 	if os.Getenv("VSIM_DEBUG") != "" {
 		th, thh := r.n.Tip()
 		fmt.Fprintf(os.Stderr, "DBG %s: block[%d] %s h=%d bits=%08x valid=%v -> err=%v stage=%s later=%v | node tip %s h=%d | model %s h=%d\n", when, bi, hs(hh), ln.Height, blk.H.Bits, ln.Valid(), err, stage, maybeLater, hs(th), thh, hs(r.model.Hash), r.model.Height)
@@ -988,8 +995,8 @@ func (r *run) deliver(bi int, when string) {
 // its descendants from the block index; such blocks may be delivered (and stored) again.
 // A block that is valid with an all-valid ancestry must never disappear.
 func (r *run) syncPurged(when string) {
-	if r.bad {
-		return
+	if r.bad || r.inNode > 0 {
+		return // inNode > 0: a panic of the node is unwinding through this frame; it is reported as such
 	}
 	r.n.Ch.BlockIndexAccess.Lock()
 	defer r.n.Ch.BlockIndexAccess.Unlock()
@@ -1002,6 +1009,15 @@ func (r *run) syncPurged(when string) {
 			continue
 		}
 		if ln.Valid() {
+			if os.Getenv("VSIM_DEBUG") != "" {
+				fmt.Fprintf(os.Stderr, "DBG syncPurged %s: block[%d] %s missing; index size %d; lenient=%v\n", when, i, hs(ln.Hash), len(r.n.Ch.BlockIndex), r.lenientTip)
+				for j, x := range r.nodes {
+					if x != nil {
+						_, pr := r.n.Ch.BlockIndex[btc.NewUint256(x.Hash[:]).BIdx()]
+						fmt.Fprintf(os.Stderr, "DBG   block[%d] %s h=%d status=%d inIndex=%v valid=%v\n", j, hs(x.Hash), x.Height, r.status[x.Hash], pr, x.Valid())
+					}
+				}
+			}
 			r.viol("index.valid-block-lost", "%s: block[%d] %s is valid with an all-valid ancestry and had been accepted, but is gone from the node's block index", when, i, hs(ln.Hash))
 			return
 		}
@@ -1099,7 +1115,7 @@ func (H) Run(t *testing.T, c *hx.Case) *hx.Outcome {
 	}
 	r.now = cfg.Now0
 
-	scfg := simrt.Config{Seed: cfg.SchedSeed, YieldP: cfg.YieldP, TimerP: cfg.TimerP, MaxConsec: cfg.MaxConsec, StepBudget: 30_000_000, PCT: cfg.PCT, PCTSteps: cfg.PCTSteps}
+	scfg := simrt.Config{Seed: cfg.SchedSeed, YieldP: cfg.YieldP, TimerP: cfg.TimerP, MaxConsec: cfg.MaxConsec, StepBudget: 30_000_000, PCT: cfg.PCT, PCTSteps: cfg.PCTSteps, ChildFirstP: cfg.ChildFirstP}
 	res := simrt.Run(scfg, func() {
 		simrt.Sleep(time.Unix(cfg.Now0, 0).Sub(time.Now()))
 		if prop == "C11" || prop == "C07" {
